@@ -69,6 +69,103 @@ fn final_head_without_body(g: &mut G, ctx: &RunCtx) -> RunReport {
     RunReport { verdict, shape: format!("final-head-without-body/{}/seg={}", status, seg_name), nontrivial: true, stats, sched_tape: ran.sched_tape, describe: if ctx.describe { format!("{} head, then silence; seg={}", status, seg_name) } else { String::new() } }
 }
 
+/// A redirect whose own body pauses.  The head of the 3xx has arrived, its announced body has not (all of it, or
+/// ever): nothing in `send()` needs those octets - the next hop is asked at once, and `send()` returns when the blank
+/// line of the *final* head has arrived.  Direct or through a forwarding proxy.
+fn redirect_body_pause_family(g: &mut G, ctx: &RunCtx) -> RunReport {
+    use crate::peers::{Act, HttpPeer, Seen};
+    use attosim::{ConnectBehaviour, Sim};
+    use std::net::IpAddr;
+    use std::sync::{Arc, Mutex};
+    g.probe("family:redirect-whose-own-body-pauses");
+    let status = *g.pick(&[301u16, 302, 303, 307, 308]);
+    let announced = *g.pick(&[1usize, 24, 300, 4096, 5000, 70_000]);
+    let sent = g.usize_below(announced);
+    let via_proxy = g.chance(1, 2);
+    let chunked = g.chance(1, 4);
+    let r_ms = *g.pick(&[200u64, 5_000, 30_000]);
+    let a_ip: IpAddr = "10.0.0.1".parse().unwrap();
+    let p_ip: IpAddr = "10.0.0.9".parse().unwrap();
+    let sim = Sim::new(ctx.sim_config());
+    sim.add_host("a.test", vec![a_ip]);
+    sim.add_host("proxy.test", vec![p_ip]);
+    let seen = Arc::new(Mutex::new(Seen::default()));
+    for (ip, port) in [(a_ip, 80u16), (p_ip, 3128)] {
+        let seen2 = seen.clone();
+        sim.add_listener(
+            ip,
+            port,
+            ConnectBehaviour::Accept { latency_ns: NS_PER_MS },
+            Some(Box::new(move |_i| {
+                Box::new(HttpPeer::new(
+                    Arc::new(move |r, _c| {
+                        let mut s = Script::default();
+                        if r.target.ends_with("/start") {
+                            let framing = if chunked { format!("Transfer-Encoding: chunked\r\n\r\n{:x}\r\n", announced) } else { format!("Content-Length: {}\r\n\r\n", announced) };
+                            let mut b = format!("HTTP/1.1 {} Moved\r\nLocation: /final\r\n{}", status, framing).into_bytes();
+                            b.extend(std::iter::repeat(b'm').take(sent));
+                            s.acts.push(Act::Send(b));
+                            // ... and nothing more: no further octet, no close
+                        } else {
+                            s.acts.push(Act::Send(b"HTTP/1.1 200 OK\r\nContent-Length: 5\r\n\r\nfinal".to_vec()));
+                            s.acts.push(Act::Fin);
+                        }
+                        s
+                    }),
+                    seen2.clone(),
+                ))
+            })),
+        );
+    }
+    let out = sim.run(move || {
+        let mut pb = attohttpc::ProxySettings::builder();
+        if via_proxy {
+            pb = pb.http_proxy(url::Url::parse("http://proxy.test:3128").unwrap());
+        }
+        let t0 = attosim::now_ns();
+        let r = attohttpc::get("http://a.test/start").proxy_settings(pb.build()).read_timeout(std::time::Duration::from_millis(r_ms)).send();
+        let t1 = attosim::now_ns();
+        match r {
+            Ok(r) => {
+                let st = r.status().as_u16();
+                let body = r.bytes().map_err(|e| bodyx::err_kind(&e));
+                Ok((t0, t1, st, body))
+            }
+            Err(e) => Err(bodyx::err_kind(&e)),
+        }
+    });
+    let mut stats = Stats::default();
+    stats.absorb(&out.history);
+    let desc = format!("{} with {} of {} announced body octets ({}) and silence, Location: /final; {}; read timeout {} ms", status, sent, announced, if chunked { "one chunk" } else { "Content-Length" }, if via_proxy { "through a forwarding proxy" } else { "direct" }, r_ms);
+    let verdict = match &out.result {
+        None => violation("hang", "run torn down"),
+        Some(Err(m)) => violation("panic", m.clone()),
+        Some(Ok(Err(e))) => violation(format!("redirect-with-paused-body-not-followed:{}", e), format!("{}: send() failed with {}", desc, e)),
+        Some(Ok(Ok((t0, t1, st, body)))) => {
+            // two connections, each one millisecond to open, every octet written at once: the walk takes 2 ms of
+            // simulated time plus nothing
+            if *st != 200 || body.as_deref() != Ok(&b"final"[..]) {
+                violation("redirect-with-paused-body:wrong-final-response", format!("{}: status {} body {:?}", desc, st, body.as_ref().map(|b| b.len())))
+            } else if t1 - t0 > 2 * NS_PER_MS {
+                violation(
+                    format!("send-waited-for-the-body-of-a-redirect:{}", if via_proxy { "proxy" } else { "direct" }),
+                    format!("{}: send() took {} ms; both heads were there after 2 ms", desc, (t1 - t0) / NS_PER_MS),
+                )
+            } else {
+                Verdict::Pass
+            }
+        }
+    };
+    RunReport {
+        verdict,
+        shape: format!("redirect-body-pause/{}/{}/{}/proxy={}/chunked={}/R={}", status, announced, sent * 4 / announced.max(1), via_proxy, chunked, r_ms),
+        nontrivial: true,
+        stats,
+        sched_tape: out.sched_tape,
+        describe: if ctx.describe { desc } else { String::new() },
+    }
+}
+
 pub fn scenario(g: &mut G, ctx: &RunCtx) -> RunReport {
     let max = if ctx.thorough { 300_000 } else { 100_000 };
     let mut plan = bodyx::gen_plan(g, max);
@@ -193,6 +290,9 @@ pub fn scenario(g: &mut G, ctx: &RunCtx) -> RunReport {
     // drawn last: recorded tapes keep their meaning
     if g.chance(1, 14) {
         return final_head_without_body(g, ctx);
+    }
+    if g.chance(1, 20) {
+        return redirect_body_pause_family(g, ctx);
     }
     let ran = bodyx::run(&plan, ctx, true);
     let mut stats = Stats::default();
